@@ -29,6 +29,10 @@ int nondet_int(void);
 #define ASSUME(cond) __CPROVER_assume(cond)
 /* reachability witness: must come back FAILURE, otherwise the harness is vacuous */
 #define WITNESS() __CPROVER_assert(0, "WITNESS reachability")
+/* negated-dependence query: the solver must REFUTE cond (find values making it false); if it
+ * proves cond instead, the outputs do not depend on what they must depend on -> violation.
+ * The driver inverts the verdict of assertions whose description starts with MUSTFAIL. */
+#define MUSTFAIL(cond, desc) __CPROVER_assert((cond), "MUSTFAIL " desc)
 static inline unsigned char *verif_alloc(size_t n)
 {
     unsigned char *p;
@@ -57,6 +61,7 @@ uint64_t verif_native_u64(const char *name);
 #define CHECK(cond, desc) do { if (!(cond)) { printf("ASSERT-FAIL %s:%d %s\n", __FILE__, __LINE__, desc); fflush(stdout); exit(1); } } while (0)
 #define ASSUME(cond) do { if (!(cond)) { printf("ASSUME-UNMET %s:%d\n", __FILE__, __LINE__); fflush(stdout); exit(77); } } while (0)
 #define WITNESS() do { printf("REPLAY-END\n"); } while (0)
+#define MUSTFAIL(cond, desc) do { if (cond) { printf("ASSERT-FAIL %s:%d independence: %s\n", __FILE__, __LINE__, desc); fflush(stdout); exit(1); } } while (0)
 static inline unsigned char *verif_alloc(size_t n)
 {
     unsigned char *p;
